@@ -180,6 +180,10 @@ def run_case(spec):
             while d_.pending_listen[side]:
                 d_.listen(side, d_.pending_listen[side].pop(0))
     end = sch.drain(600.0, 40000, until=settled)
+    if end == "steps":
+        # the step cap, not the virtual-time bound, ended the drain: no verdict on this case
+        world.finish()
+        return {"inconclusive": "step cap reached in the final drain", "violations": []}
     complete = settled()
     viol = []
     counters = {"kills": kills["done"], "kills_skipped": kills["skipped"], "opens": len(drv.opens),
